@@ -724,7 +724,7 @@ func C19(known map[string]bool) kit.Engine {
 		Known: known,
 		New:   func(st *kit.Stats) kit.SeqSim { return &c19{st: st} },
 		Desc: kit.Description{
-			Rule: "one run = one drawn history of PushCoin / PopCoin / ShiftCoin (also on the empty set) / NewMsgTxWithInputCoins on one CoinSet over a pool of harness coins and real SimpleCoins, with the four selectors applied to the set's current contents under parameters drawn per step (target 1..sum+2, MaxInputs -1..n+2, MinChange, MinAvgValueAge); running totals compared with sums over a model deque after every step, selections judged by the contracts as the statement words them; non-trivial = at least one mutation and one selection; distinct = distinct FNV-64 signature of the executed op list",
+			Rule: "one run = one drawn history of PushCoin / PopCoin / ShiftCoin (also on the empty set) / NewMsgTxWithInputCoins on one or two CoinSets built from sub-slices of one caller-owned list (harness coins and real SimpleCoins; rare big / huge / long-churn profiles), with the four selectors applied to a set's current contents, passed in one reused caller buffer, under parameters drawn per step (target 1..sum+2, MaxInputs -1..n+2, MinChange, MinAvgValueAge), the previous selection re-read after each call; running totals compared with sums over model deques after every step, selections judged by the contracts as the statement words them; non-trivial = at least one mutation and one selection; distinct = distinct FNV-64 signature of the executed op list",
 			RealVsStub: map[string]string{
 				"coinset.CoinSet, the four selectors, SimpleCoin, NewMsgTxWithInputCoins, bchutil.Tx": "real (from /repo working tree)",
 				"harness coins (constant value-age)":                                                  "harness implementation of the Coin interface",
